@@ -206,6 +206,24 @@ func runC05(r *Run) {
 		}) {
 			allocBlock = in.Block()
 		}
+		// … or in a constructor SendFile calls (`sf := c.app.newSendFileStore(cfg)`): the call stands for the allocation,
+		// and everything the constructor reads of the configuration goes into the entry
+		var builder *ssa.Function
+		if allocBlock == nil {
+			for _, c := range callsIn(sfn, false) {
+				g := c.Common.StaticCallee()
+				if g == nil || g.Pkg != sfn.Pkg || len(g.Blocks) == 0 || c.Instr.Parent() != sfn {
+					continue
+				}
+				for _, in := range instrsWhereOne(g, func(in ssa.Instruction) bool {
+					al, ok := in.(*ssa.Alloc)
+					return ok && al.Heap && namedTypeName(al.Type().(*types.Pointer).Elem()) == "sendFileStore"
+				}) {
+					_ = in
+					builder, allocBlock = g, c.Instr.Block()
+				}
+			}
+		}
 		r.need(allocBlock != nil, "SendFile allocates a sendFileStore when nothing matched")
 		var region *ssa.BasicBlock
 		for _, br := range branchesInOne(sfn) {
@@ -227,6 +245,16 @@ func runC05(r *Run) {
 			}
 			if _, ok := used[fr.Name]; !ok {
 				used[fr.Name] = r.pos(fr.Instr)
+			}
+		}
+		if builder != nil {
+			for _, fr := range fieldRefsOne(builder) {
+				if fr.Write || !strings.HasPrefix(fr.Name, "SendFile.") {
+					continue
+				}
+				if _, ok := used[fr.Name]; !ok {
+					used[fr.Name] = r.pos(fr.Instr)
+				}
 			}
 		}
 		r.atLeast("SendFile fields an entry is built from", len(used), 4)
